@@ -132,7 +132,7 @@ def followed_child(M, t):
     return t
 
 
-def run(M, rep, rid, own_ctx=None):
+def run(M, rep, rid, own_ctx=None, only_classes=None, only_modules=None):
     lcfg = layer_config(M)
     lcfg.compose = False
     rcfg = Config(M, mode="raw")
@@ -141,6 +141,8 @@ def run(M, rep, rid, own_ctx=None):
     n = 0
     for f, hits in candidate_sites(M):
         cn = f.cls.name if f.cls is not None else None
+        if only_classes is not None and not (cn in only_classes or (only_modules and f.module.name in only_modules)):
+            continue
         key_base = f.qual.split(":")[-1]
         layer = cn in T.LAYER_CLASSES
         # ---- S3: module-level tables (key must determine the value)
